@@ -33,7 +33,7 @@ KS = list(range(0, 9))
 KS2 = (0, 1, 2, 5, 8)     # depth >= 2
 SLACK = 16
 CONSUMERS = ('islice', 'head', 'rowslice', 'look', 'see', 'slice', 'index')
-READAHEAD = {'unpackdict(sample)': 2, 'fromdicts(list,sample)': 3}
+READAHEAD = {'unpackdict(sample)': 2, 'unpackdict(sample1)': 1, 'unpackdict(sample0)': 0, 'fromdicts(list,sample)': 3}
 
 _STREAM = None
 
@@ -121,11 +121,27 @@ def check_pipeline(names, ctx, ks, consumers):
     """Returns list of (signature, detail-dict) failures for one pipeline."""
     bad = []
     passall = all('passall' in C.BY_NAME[n].tags for n in names)
+    if passall and len(names) > 1:
+        # 'keeps every row' is declared for the operator's own input kind; in a pipeline the cells may have
+        # changed type (e.g. after convertnumbers), so confirm it on a plain 24-row input
+        try:
+            b = build(names, 24, ctx, plain=True)
+            passall = sum(1 for _ in itertools.islice(b.view, 1, None)) >= 24
+        except Exception:
+            passall = False
     ahead = sum(READAHEAD.get(n, 0) for n in names)
     nontrivial = 0
     evals = 0
     if 'container' in C.BY_NAME[names[-1]].tags:
         consumers = [c for c in consumers if c in ('islice', 'slice', 'index')]
+    # availability: does the shorter source deliver k rows at all (selective filters may not)?
+    avail = {}
+    for k in ks:
+        try:
+            b = build(names, N1, ctx)
+            avail[k] = consume(b.view, 'islice', k) >= k + 1
+        except Exception:
+            avail[k] = True     # reported below, by the consumer loop
     for consumer in consumers:
         for k in ks:
             pulls = []
@@ -150,8 +166,10 @@ def check_pipeline(names, ctx, ks, consumers):
             if len(pulls) < 2:
                 continue
             (p1, g1), (p2, g2) = pulls
-            if p1 >= N1:
-                continue    # exhausted the shorter source (selective filter): k rows are not available
+            if not avail[k]:
+                continue    # selective filter: the shorter source does not hold k matching rows at all
+            if p1 >= N1 and not passall:
+                continue    # a selective stage let nothing through: rows came from elsewhere (e.g. a second input)
             if k >= 1:
                 nontrivial += 1
             if p1 != p2:
